@@ -53,7 +53,7 @@ def prune(interp, cond):
         cache[1] = [a for a in interp.assumptions if _qf(a)]
         cache[0] = len(interp.assumptions)
     s = z3.Solver()
-    s.set("timeout", 300)
+    s.set("timeout", int(interp.state.get("prune_timeout", 300)))
     s.add(*cache[1], *interp.pc)
     wfv = interp.state.get("wf_view")
     if wfv is not None:
@@ -349,6 +349,7 @@ def flush(obs, pending, pre, instances, base, i, kind, p, sym, raised, timeout):
             solver.add(*hyp)
             if attempt > 0:
                 solver.add(*[B(f) for f in instances(sk_)])
+                solver.add(*generic_instances(hyp, sk_))
             for f in fs:
                 solver.add(B(f))
             r = solver.check()
@@ -373,6 +374,23 @@ def flush(obs, pending, pre, instances, base, i, kind, p, sym, raised, timeout):
                           solver_output=f"sat\narguments: {wit}\n", witness={"clause": clause, "args": wit}))
         else:
             obs.append(Ob(name, kind, UNDECIDED, "z3", dt, detail=f"{what}: {solver.reason_unknown()}"))
+
+
+def generic_instances(hyps, skolems):
+    """ground instances of pattern-less single-variable universals (bounded-iteration facts over copied tables,
+    whose Select-over-Lambda bodies admit no trigger) at the clause's Skolem constants"""
+    out = []
+    terms = list(skolems)
+    for t in list(skolems):
+        if t.sort() == BondS:
+            terms += [BondS.lo(t), BondS.hi(t)]
+    for f in hyps:
+        if z3.is_quantifier(f) and f.is_forall() and f.num_vars() == 1 and f.num_patterns() == 0:
+            so = f.var_sort(0)
+            for t in terms:
+                if t.sort() == so:
+                    out.append(z3.substitute_vars(f.body(), t))
+    return out
 
 
 def alloc_top(h: Heap):
